@@ -41,6 +41,7 @@ type ClusterIterator struct {
 	page           []string
 	route          *Route
 	partitionKeys  map[string]struct{}
+	scanOwners     []string // the owners list of the scan round in progress
 	cursors        map[uint64]map[string]*currentCursor
 	partID         uint64 // current partition id
 	routingTable   RoutingTable
@@ -118,23 +119,44 @@ func (i *ClusterIterator) getOwners() []string {
 	} else {
 		raw = i.routingTable[i.partID].PrimaryOwners
 	}
+	// Scan only the owners that have not been scanned to the end yet. i.route is the working
+	// copy of the route for the current partition, the finished owners are removed from it.
+	if i.route != nil {
+		if i.config.Replica {
+			raw = i.route.ReplicaOwners
+		} else {
+			raw = i.route.PrimaryOwners
+		}
+	}
 	var owners []string
 	// Make a safe copy of the raw.
 	for _, owner := range raw {
 		owners = append(owners, owner)
 	}
+	// removeScannedOwner receives an index into this list.
+	i.scanOwners = owners
 	return owners
 }
 
 func (i *ClusterIterator) removeScannedOwner(idx int) {
+	// idx is a position in the list returned by the last getOwners call. The route shrinks while
+	// that list is being walked, so the positions do not match any more: remove the owner by name.
+	if idx < 0 || idx >= len(i.scanOwners) {
+		return
+	}
+	name := i.scanOwners[idx]
+	remove := func(owners []string) []string {
+		for pos, owner := range owners {
+			if owner == name {
+				return append(owners[:pos:pos], owners[pos+1:]...)
+			}
+		}
+		return owners
+	}
 	if i.config.Replica {
-		if len(i.route.ReplicaOwners) > 0 && len(i.route.ReplicaOwners) > idx {
-			i.route.ReplicaOwners = append(i.route.ReplicaOwners[:idx], i.route.ReplicaOwners[idx+1:]...)
-		}
+		i.route.ReplicaOwners = remove(i.route.ReplicaOwners)
 	} else {
-		if len(i.route.PrimaryOwners) > 0 && len(i.route.PrimaryOwners) > idx {
-			i.route.PrimaryOwners = append(i.route.PrimaryOwners[:idx], i.route.PrimaryOwners[idx+1:]...)
-		}
+		i.route.PrimaryOwners = remove(i.route.PrimaryOwners)
 	}
 }
 
